@@ -35,8 +35,14 @@ func init() {
 		Finish:         finish,
 		MinEvaluations: map[string]int{"quick": 3000000, "thorough": 250000000},
 		MinNontrivial:  map[string]int{"quick": 500000, "thorough": 10000000},
-		RequiredObs:    []string{"aut>1", "rep:dense", "rep:sparse", "library_path_checked", "large_cell_graphs(n>=21)", "big_cell_cases"},
+		RequiredObs:    []string{"aut>1", "rep:dense", "rep:sparse", "library_path_checked", "large_cell_graphs(n>=21)", "big_cell_cases", "earlier_result_rechecked_after_next_call"},
 	})
+}
+
+// held is the most recent permutation returned by CanonicalIsomorph (the very slice, and a snapshot of it).
+var held struct {
+	slice, snap []int
+	vkey        string
 }
 
 func isPerm(p []int, n int) bool {
@@ -70,6 +76,20 @@ func canonOf(c *engine.Ctx, key string, h *rg.G, sparse bool, witness func() int
 		return nil, nil, false
 	}
 	c.Eval(1)
+	// a result handed out earlier must not change when the function is called again
+	if held.slice != nil {
+		c.Obs("earlier_result_rechecked_after_next_call", 1)
+		same := len(held.slice) == len(held.snap)
+		for i := 0; same && i < len(held.snap); i++ {
+			same = held.slice[i] == held.snap[i]
+		}
+		if !same {
+			c.Violation("canon|earlier-result-changed-by-a-later-call|"+held.vkey, map[string]interface{}{"first_graph": held.vkey, "then": vkey, "returned_then": held.snap, "reads_now": held.slice}, fmt.Sprintf("the permutation returned for %s read %v when it was returned and reads %v after CanonicalIsomorph was called on %s", held.vkey, held.snap, held.slice, vkey), "a returned permutation stays as returned")
+			held.slice = nil
+			return nil, nil, false
+		}
+	}
+	held.slice, held.snap, held.vkey = p, append([]int(nil), p...), vkey
 	if !isPerm(p, h.N) {
 		c.Violation("canon|not-a-permutation|"+vkey, witness(), fmt.Sprint(p), fmt.Sprintf("a permutation of 0..%d", h.N-1))
 		return nil, nil, false
